@@ -30,7 +30,7 @@ ALIGNS = [1, 2, 4, 8, 16]
 # proxy node).  REMOVE THIS EXCLUSION (set to False) once the fix is in /repo.
 # VERIF_INCLUDE_F18=1 in the environment runs the excluded scenarios anyway (to show the defect, or to
 # verify a repair on a scratch copy: VERIF_REPO=<copy> VERIF_INCLUDE_F18=1 bin/vcheck run C16).
-EXCLUDE_F18_SHAPE = os.environ.get("VERIF_INCLUDE_F18") != "1"
+EXCLUDE_F18_SHAPE = False   # F18 is fixed in /repo (see known_findings.json): the shape is part of the plan
 
 
 def is_f18_shape(h, cmds):
@@ -165,6 +165,25 @@ def lowlevel_jobs(prop, tier, seed, cfgs=("base", "dbg", "f16")):
         J.append(Job(cfg, LOW[0], LOW[1], hist, "hist"))
         J.append(Job(cfg, LOW[0], LOW[1], [leak_exec(r) for _ in range(12 * s)], "leak"))
     return J
+
+
+def fill_pattern_jobs(prop, tier, seed):
+    """the second half of C17 -- memory handed out by ANY allocator carries the new-memory pattern,
+    memory released to a pool the freed pattern except for the link bytes, in-bounds use is never
+    reported -- is judged by SeqTrace (guards labelled C17) on valid histories of the seq driver"""
+    rng = random.Random(seed * 1000003 + 1700)
+    s = 1.0 if tier == "quick" else 10.0
+    J = []
+    for cfg in ("base", "dbg", "f16"):
+        r = random.Random(rng.random())
+        execs = plans._batch(r, s, [(8, plans.pool_exec(n=60)), (6, plans.coll_exec(n=60)), (5, plans.stack_exec(n=60)),
+                                    (3, plans.iter_exec(n=40)), (1, plans.static_exec(20))])
+        J.append(Job(cfg, plans.SEQ[0], plans.SEQ[1], execs, "fill"))
+    return J
+
+
+def c17_jobs(prop, tier, seed):
+    return lowlevel_jobs(prop, tier, seed) + fill_pattern_jobs(prop, tier, seed)
 
 
 # ---- C16 --------------------------------------------------------------------------------------------
@@ -302,11 +321,12 @@ def c16_jobs(prop, tier, seed):
 
 
 PROPS = {
-    "C17": {"jobs": lowlevel_jobs,
+    "C17": {"jobs": c17_jobs,
             "rule": "probes: one node, one written byte per forked child (every byte of both fences, in-bounds bytes, "
                     "fence-pattern writes) for heap/malloc/new/virtual_memory_allocator through allocator_traits and directly; "
                     "seeded allocate/deallocate histories over all four allocators; leak-at-exit children; "
-                    "system allocations observed through linker interposition"},
+                    "system allocations observed through linker interposition; plus valid histories of the seq driver "
+                    "(pools, collections, stacks) for the fill patterns of the other allocators"},
     "C16": {"jobs": c16_jobs,
             "rule": "each execution = a valid history followed by ONE invalid release in a child process (small-node pool: foreign / "
                     "off-stride pointers; double free on node/array/small pools in dbg; stale stack markers; out-of-order blocks), "
